@@ -625,6 +625,7 @@ class SSHStreamSession(Generic[AnyStr]):
                         if buf:
                             recv_buf[:curbuf] = []
                             self._recv_buf_len -= buflen
+                            self._maybe_resume_reading()
                             raise asyncio.IncompleteReadError(
                                 cast(bytes, buf), None)
                         else:
